@@ -22,7 +22,7 @@ func (m *MerkleBlock) DecodeBinary(br *io.BinReader) {
 	m.Header.DecodeBinary(br)
 
 	txCount := int(br.ReadVarUint())
-	if txCount > block.MaxTransactionsPerBlock {
+	if txCount < 0 || txCount > block.MaxTransactionsPerBlock {
 		br.Err = block.ErrMaxContentsPerBlock
 		return
 	}
